@@ -67,14 +67,23 @@ contract(
     **COMMON,
 )
 
+FM_PREFIX = {"ifm": "IFM", "ifm2": "IFM2", "ofm": "OFM"}      # register group of each feature map
+
+
+def _tile_regs(g):
+    return ("cmd0.NPU_SET_%s_HEIGHT0_M1" % g, "cmd0.NPU_SET_%s_HEIGHT1_M1" % g, "cmd0.NPU_SET_%s_WIDTH0_M1" % g)
+
+
 contract(
     "ethosu.vela.register_command_stream_generator:generate_tiles",
-    variants={"ifm": dict(emit=EMIT, tile_cmds=TConst((cmd0.NPU_SET_IFM_HEIGHT0_M1, cmd0.NPU_SET_IFM_HEIGHT1_M1, cmd0.NPU_SET_IFM_WIDTH0_M1)), tiles=TILES)},
+    variants={v: dict(emit=EMIT, tile_cmds=TConst(tuple(eval(r) for r in _tile_regs(g))), tiles=TILES) for v, g in FM_PREFIX.items()},
     # a used feature map has tile 0 of at least 1x1; height_1 == 0 means tile 1 unused and encodes as 0xFFFF (-1)
     requires=["emit_inv(emit)", "tiles.height_0 >= 1", "tiles.width_0 >= 1"],
-    ensures=KEEP + ["D(emit, cmd0.NPU_SET_IFM_HEIGHT0_M1) == tiles.height_0 - 1", "s16(D(emit, cmd0.NPU_SET_IFM_HEIGHT1_M1)) == tiles.height_1 - 1 or D(emit, cmd0.NPU_SET_IFM_HEIGHT1_M1) == tiles.height_1 - 1",
-                    "D(emit, cmd0.NPU_SET_IFM_WIDTH0_M1) == tiles.width_0 - 1"],
-    modifies_maps=mm("cmd0.NPU_SET_IFM_HEIGHT0_M1", "cmd0.NPU_SET_IFM_HEIGHT1_M1", "cmd0.NPU_SET_IFM_WIDTH0_M1"),
+    ensures=KEEP,
+    variant_ensures={v: ["D(emit, %s) == tiles.height_0 - 1" % _tile_regs(g)[0],
+                         "s16(D(emit, %s)) == tiles.height_1 - 1 or D(emit, %s) == tiles.height_1 - 1" % (_tile_regs(g)[1], _tile_regs(g)[1]),
+                         "D(emit, %s) == tiles.width_0 - 1" % _tile_regs(g)[2]] for v, g in FM_PREFIX.items()},
+    variant_modifies_maps={v: mm(*_tile_regs(g)) for v, g in FM_PREFIX.items()},
     **COMMON,
 )
 
@@ -223,24 +232,34 @@ contract(
 from contracts.c_rcs_util import default_strides  # noqa: E402
 from ethosu.vela.errors import ByteAlignmentError, ByteSizeError  # noqa: E402
 
+def _stride_regs(g):
+    return ("cmd1.NPU_SET_%s_STRIDE_C" % g, "cmd1.NPU_SET_%s_STRIDE_Y" % g, "cmd1.NPU_SET_%s_STRIDE_X" % g)
+
+
+def _stride_clauses(g, fm="fm"):
+    c_, y_, x_ = _stride_regs(g)
+    return [
+        # the three stride registers hold the feature map's strides (explicit ones, else the default layout strides) ...
+        "implies(%s.strides is not None, D_addr(emit, %s) == %s.strides.depth and D_addr(emit, %s) == %s.strides.height"
+        " and D_addr(emit, %s) == %s.strides.width)" % (fm, c_, fm, y_, fm, x_, fm),
+        "implies(%s.strides is None, D_addr(emit, %s) == default_strides(%s).depth and D_addr(emit, %s) == default_strides(%s).height"
+        " and D_addr(emit, %s) == default_strides(%s).width)" % (fm, c_, fm, y_, fm, x_, fm),
+        # ... and a normal return implies they meet the hardware alignment rules
+        "implies(%s.layout == NpuLayout.NHCWB16, D_addr(emit, %s) %% 16 == 0 and D_addr(emit, %s) %% 16 == 0)" % (fm, c_, y_),
+        "implies(%s.layout == NpuLayout.NHWC, D_addr(emit, %s) %% %s.data_type.size_in_bytes() == 0"
+        " and D_addr(emit, %s) %% %s.data_type.size_in_bytes() == 0)" % (fm, y_, fm, x_, fm),
+    ]
+
+
 contract(
     "ethosu.vela.register_command_stream_generator:generate_strides",
-    variants={"ifm": dict(emit=EMIT, fm=FM, stride_c_cmd=TConst(cmd1.NPU_SET_IFM_STRIDE_C), stride_y_cmd=TConst(cmd1.NPU_SET_IFM_STRIDE_Y),
-                          stride_x_cmd=TConst(cmd1.NPU_SET_IFM_STRIDE_X))},
+    variants={v: dict(emit=EMIT, fm=FM, stride_c_cmd=TConst(eval(_stride_regs(g)[0])), stride_y_cmd=TConst(eval(_stride_regs(g)[1])),
+                      stride_x_cmd=TConst(eval(_stride_regs(g)[2]))) for v, g in FM_PREFIX.items()},
     requires=["emit_inv(emit)", "implies(fm.strides is None, fm.shape.width * fm.shape.depth * 4 * 16 < 2**40)"],
     raises=[(ByteSizeError, None)],
-    ensures=KEEP + [
-        # the three stride registers hold the feature map's strides (explicit ones, else the default layout strides) ...
-        "implies(fm.strides is not None, D_addr(emit, cmd1.NPU_SET_IFM_STRIDE_C) == fm.strides.depth and D_addr(emit, cmd1.NPU_SET_IFM_STRIDE_Y) == fm.strides.height"
-        " and D_addr(emit, cmd1.NPU_SET_IFM_STRIDE_X) == fm.strides.width)",
-        "implies(fm.strides is None, D_addr(emit, cmd1.NPU_SET_IFM_STRIDE_C) == default_strides(fm).depth and D_addr(emit, cmd1.NPU_SET_IFM_STRIDE_Y) == default_strides(fm).height"
-        " and D_addr(emit, cmd1.NPU_SET_IFM_STRIDE_X) == default_strides(fm).width)",
-        # ... and a normal return implies they meet the hardware alignment rules
-        "implies(fm.layout == NpuLayout.NHCWB16, D_addr(emit, cmd1.NPU_SET_IFM_STRIDE_C) % 16 == 0 and D_addr(emit, cmd1.NPU_SET_IFM_STRIDE_Y) % 16 == 0)",
-        "implies(fm.layout == NpuLayout.NHWC, D_addr(emit, cmd1.NPU_SET_IFM_STRIDE_Y) % fm.data_type.size_in_bytes() == 0"
-        " and D_addr(emit, cmd1.NPU_SET_IFM_STRIDE_X) % fm.data_type.size_in_bytes() == 0)",
-    ],
-    modifies_maps=mm("cmd1.NPU_SET_IFM_STRIDE_C", "cmd1.NPU_SET_IFM_STRIDE_Y", "cmd1.NPU_SET_IFM_STRIDE_X"),
+    ensures=KEEP,
+    variant_ensures={v: _stride_clauses(g) for v, g in FM_PREFIX.items()},
+    variant_modifies_maps={v: mm(*_stride_regs(g)) for v, g in FM_PREFIX.items()},
     **COMMON,
 )
 
